@@ -317,13 +317,16 @@ pub fn run_sdd_caches(case: &SddCacheCase, st: &mut Stats) -> CaseResult {
         }
         if i >= gap {
             // re-issue the op from `gap` steps ago against the same pool prefix
-            let (idx, _, old) = match steps.iter().rev().find(|(idx, _, _)| *idx + gap < run.pool.len()) {
+            let (idx, old_args, old) = match steps.iter().rev().find(|(idx, _, _)| *idx + gap < run.pool.len()) {
                 Some(s) => s.clone(),
                 None => continue,
             };
             // re-running an op means: same arguments (by pool index) -> must give the pointer recorded at idx
             let saved_len = run.pool.len();
-            let mut prefix = SddRun { b: &b, pool: run.pool[..idx].to_vec(), labels: run.labels.clone() };
+            let mut prefix = SddRun { b: &b, pool: run.pool[..idx].to_vec(), labels: run.labels.clone(), forced_operands: None };
+            if matches!(old, SOp::AndDisjoint(..) | SOp::OrDisjoint(..) | SOp::AndDisjointNeg(..) | SOp::OrDisjointNeg(..)) && old_args.len() == 2 {
+                prefix.forced_operands = Some((old_args[0], old_args[1]));
+            }
             if let Some(again) = prefix.step(&old) {
                 let p2 = prefix.pool[again.idx].0;
                 let p1 = run.pool[idx].0;
@@ -361,11 +364,14 @@ pub fn run_sdd_caches(case: &SddCacheCase, st: &mut Stats) -> CaseResult {
         }
         let fb = make_builder(&case.vt, true, case.table_cap);
         let mut fr = SddRun::new(&fb, shape.leaves());
-        for (idx, _, op) in steps.iter() {
+        for (idx, rec_args, op) in steps.iter() {
             if *idx > target {
                 break;
             }
             if cone.contains(idx) {
+                if matches!(op, SOp::AndDisjoint(..) | SOp::OrDisjoint(..) | SOp::AndDisjointNeg(..) | SOp::OrDisjointNeg(..)) && rec_args.len() == 2 {
+                    fr.forced_operands = Some((rec_args[0], rec_args[1]));
+                }
                 let out = fr.step(op);
                 debug_assert!(out.map(|o| o.idx) == Some(*idx));
             } else {
@@ -446,11 +452,14 @@ pub fn run_semantic_cache(case: &SddCacheCase, st: &mut Stats) -> CaseResult {
             steps.push((out.idx, out.args.clone(), op.clone()));
         }
         if i >= gap {
-            let (idx, _, old) = match steps.iter().rev().find(|(idx, _, _)| *idx + gap < run.pool.len()) {
+            let (idx, old_args, old) = match steps.iter().rev().find(|(idx, _, _)| *idx + gap < run.pool.len()) {
                 Some(s) => s.clone(),
                 None => continue,
             };
-            let mut prefix = SddRun { b: &b, pool: run.pool[..idx].to_vec(), labels: run.labels.clone() };
+            let mut prefix = SddRun { b: &b, pool: run.pool[..idx].to_vec(), labels: run.labels.clone(), forced_operands: None };
+            if matches!(old, SOp::AndDisjoint(..) | SOp::OrDisjoint(..) | SOp::AndDisjointNeg(..) | SOp::OrDisjointNeg(..)) && old_args.len() == 2 {
+                prefix.forced_operands = Some((old_args[0], old_args[1]));
+            }
             if let Some(again) = prefix.step(&old) {
                 let p2 = prefix.pool[again.idx].0;
                 let p1 = run.pool[idx].0;
@@ -489,11 +498,14 @@ pub fn run_semantic_cache(case: &SddCacheCase, st: &mut Stats) -> CaseResult {
         }
         let fb: B = SemanticSddBuilder::new(case.vt.to_vtree());
         let mut fr = SddRun::new(&fb, shape.leaves());
-        for (idx, _, op) in steps.iter() {
+        for (idx, rec_args, op) in steps.iter() {
             if *idx > target {
                 break;
             }
             if cone.contains(idx) {
+                if matches!(op, SOp::AndDisjoint(..) | SOp::OrDisjoint(..) | SOp::AndDisjointNeg(..) | SOp::OrDisjointNeg(..)) && rec_args.len() == 2 {
+                    fr.forced_operands = Some((rec_args[0], rec_args[1]));
+                }
                 let _ = fr.step(op);
             } else {
                 fr.pool.push((SddPtr::PtrTrue, Tt::TRUE));
